@@ -75,3 +75,44 @@ func vh_hash_nilmsg(fn, d int) {
 		vObserve("S", s.S)
 	}
 }
+
+// two consecutive calls: the second result must not depend on the first call (no state carried across calls).
+// mode 0: fresh buffers for the second call; mode 1: the first call's DST buffer is overwritten in place and reused
+func vh_hash_twice(fn, m, d, mode int) {
+	msg1 := vNondetBytes("msg1", m)
+	dst1 := vNondetBytes("dst1", d)
+	var msg, dst []byte
+	run := func(a, b []byte) {
+		switch fn {
+		case 0:
+			HashToGroup(a, b)
+		case 1:
+			EncodeToGroup(a, b)
+		case 2:
+			HashToScalar(a, b)
+		}
+	}
+	run(msg1, dst1)
+	msg = vNondetBytes("msg", m)
+	if mode == 1 {
+		copy(dst1, vNondetBytes("dst", d))
+		dst = dst1
+	} else {
+		dst = vNondetBytes("dst", d)
+	}
+	vMark()
+	switch fn {
+	case 0:
+		e := HashToGroup(msg, dst)
+		vObserveEl("E", e)
+		vObserve("efresh", e)
+	case 1:
+		e := EncodeToGroup(msg, dst)
+		vObserveEl("E", e)
+		vObserve("efresh", e)
+	case 2:
+		s := HashToScalar(msg, dst)
+		vObserve("S", s.S)
+		vObserve("sfresh", s)
+	}
+}
